@@ -194,6 +194,7 @@ class TraceVerdict:
         self.matched = 0
         self.first_unmatched = None  # the first record TLC could not explain (dict)
         self.invariant = None        # named invariant violated, if any
+        self.viol = []               # [{at (1-based record), inv [names], record}] reported by the acceptor
         self.tlc = None
 
 
@@ -215,6 +216,7 @@ def validate_trace(module, trace_path, cfg=None, env=None, timeout=3600, heap="4
         v.invariant = r.violated
     if stats:
         v.matched = int(stats[-1].get("matched", 0))
+        v.viol = stats[-1].get("viol", []) or []
     else:
         m = re.search(r"depth of the complete state graph search is (\d+)", r.out)
         v.matched = (int(m.group(1)) - 1) if m else 0
@@ -222,8 +224,19 @@ def validate_trace(module, trace_path, cfg=None, env=None, timeout=3600, heap="4
         raise ToolError(f"trace validation timed out on {trace_path}")
     if not stats and not v.invariant and r.rc != 0 and not re.search(r"depth of the complete", r.out):
         raise ToolError(f"trace validation failed to run: rc={r.rc} {r.error_lines[:3]} (see {r.out_path})")
-    v.accepted = (v.invariant is None) and v.matched >= nrec and r.rc == 0
-    if not v.accepted:
+    v.accepted = (v.invariant is None) and v.matched >= nrec and r.rc == 0 and not v.viol
+    if v.viol:
+        want = {int(x["at"]) - 1: x for x in v.viol}
+        with open(trace_path) as fh:
+            for i, line in enumerate(fh):
+                if i in want:
+                    try:
+                        want[i]["record"] = json.loads(line)
+                    except Exception:
+                        want[i]["record"] = {"raw": line[:500]}
+    if v.matched < nrec and r.rc != 0 and not v.viol and not stats:
+        pass
+    if not v.accepted and v.matched < nrec:
         idx = v.matched  # 0-based index of first unmatched record
         with open(trace_path) as fh:
             for i, line in enumerate(fh):
